@@ -273,7 +273,11 @@ func addrRoot(v ssa.Value) (ssa.Value, []string) {
 			}
 			v = x.X
 		case *ssa.IndexAddr:
-			path = append([]string{"[]"}, path...)
+			if c, ok := x.Index.(*ssa.Const); ok && c.Value != nil {
+				path = append([]string{"[" + c.Value.ExactString() + "]"}, path...)
+			} else {
+				path = append([]string{"[]"}, path...)
+			}
 			v = x.X
 		default:
 			return v, path
@@ -516,9 +520,19 @@ func (tm *Terms) allocInfoOf(a *ssa.Alloc) *allocInfo {
 	}
 	apply := func(s state, di int) {
 		d := ai.defs[di]
+		weak := false
+		for _, p := range d.path {
+			if p == "[]" {
+				weak = true // element store with a computed index: may be any element
+			}
+		}
 		for _, k := range ai.keys {
 			if hasPrefix(k, d.path) {
-				s[pathKey(k)] = []int{di}
+				if weak {
+					s[pathKey(k)] = append(append([]int{}, s[pathKey(k)]...), di)
+				} else {
+					s[pathKey(k)] = []int{di}
+				}
 			}
 		}
 	}
@@ -840,9 +854,25 @@ func (tm *Terms) index(fr *Frame, v ssa.Value, base, idx ssa.Value) *Term {
 		return mk("last", "", v, b)
 	}
 	if c, ok := idx.(*ssa.Const); ok {
-		return mk("elem", constKey(c), v, b)
+		return elemOf(b, constKey(c), v)
 	}
 	return mk("elem", "", v, b)
+}
+
+// elemOf projects a constant index out of a literal slice/array term.
+func elemOf(b *Term, idx string, v ssa.Value) *Term {
+	x := b
+	for x.Op == "slice" || x.Op == "new" || x.Op == "deref" {
+		x = x.Args[0]
+	}
+	if x.Op == "upd" {
+		for _, a := range x.Args[1:] {
+			if a.Name == "["+idx+"]" {
+				return a.Args[0]
+			}
+		}
+	}
+	return mk("elem", idx, v, b)
 }
 
 // isLastIndex recognises len(base)-1 (base compared structurally on the SSA value or its load address).
@@ -956,6 +986,8 @@ func pathStep(t *Term, p string, v ssa.Value) *Term {
 	switch {
 	case p == "[]":
 		return mk("elem", "", v, t)
+	case strings.HasPrefix(p, "["):
+		return elemOf(t, strings.Trim(p, "[]"), v)
 	case strings.HasPrefix(p, "~"):
 		return projEmbedded(t, p, v)
 	}
@@ -1057,7 +1089,7 @@ func (tm *Terms) snapAt(fr *Frame, ai *allocInfo, st map[string][]int, path []st
 		}
 		if partial {
 			name := k[len(k)-1]
-			if name == "[]" || strings.HasPrefix(name, "~") {
+			if strings.HasPrefix(name, "[") || strings.HasPrefix(name, "~") {
 				// element / embedded-pointer overlays are folded into an opaque marker
 				ov = append(ov, mk("fset", name, ai.alloc, tm.snapAt(fr, ai, st, k, depth+1)))
 				continue
